@@ -61,7 +61,14 @@ fn assignments(n: usize, support: u32, rng: &mut Rng) -> Vec<u64> {
     }
     // enumerate the support exactly, randomise every other bit of the 32-bit assignment
     let vars: Vec<u32> = (0..32).filter(|v| (support >> v) & 1 == 1).collect();
-    assert!(vars.len() <= 13, "harness: support too large");
+    if vars.len() > 12 {
+        // dense cubes: the support cannot be enumerated.  Random assignments almost never satisfy a dense
+        // cube, so the callers add the satisfying assignments and their one-literal neighbours themselves
+        // (see dense_assignments); here: random and boundary patterns.
+        let mut out: Vec<u64> = (0..128).map(|_| rng.next_u64() & 0xffff_ffff).collect();
+        out.extend(boundary);
+        return out;
+    }
     let mut out = Vec::new();
     for s in 0..(1u64 << vars.len()) {
         let mut m = rng.next_u64() & 0xffff_ffff & !(support as u64);
@@ -73,6 +80,26 @@ fn assignments(n: usize, support: u32, rng: &mut Rng) -> Vec<u64> {
         out.push(m);
     }
     out.extend(boundary);
+    out
+}
+
+/// For dense cubes: assignments that satisfy the cube (free variables random) and, for every literal, the
+/// neighbour that violates exactly that literal.
+fn dense_assignments(c: &CubeM, rng: &mut Rng) -> Vec<u64> {
+    let mut out = Vec::new();
+    if c.contradictory() {
+        return out;
+    }
+    for _ in 0..4 {
+        let free = rng.next_u64() & 0xffff_ffff & !(c.support() as u64);
+        let sat = free | c.pos as u64;
+        out.push(sat);
+        for v in 0..32 {
+            if (c.support() >> v) & 1 == 1 {
+                out.push(sat ^ (1u64 << v));
+            }
+        }
+    }
     out
 }
 
@@ -121,7 +148,8 @@ fn exec(ctx: &mut Ctx, ev: &Ev, rng: &mut Rng) {
                     ctx.check("constructors-agree", c == Cube::one(), ev, "one", || "Cube::one() differs from the empty cube".into());
                 }
             }
-            let asg = assignments(n, m.support(), rng);
+            let mut asg = assignments(n, m.support(), rng);
+            asg.extend(dense_assignments(&m, rng));
             let vals = guard(|| asg.iter().map(|a| c.value(*a as usize)).collect::<Vec<bool>>());
             match vals {
                 Outcome::Returned(vals) => {
@@ -152,14 +180,33 @@ fn exec(ctx: &mut Ctx, ev: &Ev, rng: &mut Rng) {
                 }
             };
             let _ = (a, b);
-            let asg = assignments(n, ma.support() | mb.support(), rng);
+            let mut asg = assignments(n, ma.support() | mb.support(), rng);
+            let dense = (ma.support() | mb.support()).count_ones() > 12;
             let ea = ma.contradictory();
             let eb = mb.contradictory();
+            if dense {
+                asg.extend(dense_assignments(&ma, rng));
+                asg.extend(dense_assignments(&mb, rng));
+                asg.extend(dense_assignments(&ma.and(&mb), rng));
+            }
             let sa: Vec<bool> = asg.iter().map(|m| !ea && ma.sat(*m)).collect();
             let sb: Vec<bool> = asg.iter().map(|m| !eb && mb.sat(*m)).collect();
-            let both_sat = sa.iter().zip(sb.iter()).any(|(x, y)| *x && *y);
-            let a_in_b = sa.iter().zip(sb.iter()).all(|(x, y)| !*x || *y);
-            let same = sa == sb;
+            let (both_sat, a_in_b, same) = if dense {
+                // set semantics of cubes, decided on the literal sets (the support is too large to enumerate):
+                // the conjunction is satisfiable iff no variable occurs with both polarities; a is inside b iff a
+                // is empty or b is non-empty and every literal of b is a literal of a; equal sets iff both empty
+                // or the same literals
+                let both = !ea && !eb && !ma.and(&mb).contradictory();
+                let inside = ea || (!eb && (ma.pos | mb.pos) == ma.pos && (ma.neg | mb.neg) == ma.neg);
+                let eq = (ea && eb) || (!ea && !eb && ma == mb);
+                (both, inside, eq)
+            } else {
+                (
+                    sa.iter().zip(sb.iter()).any(|(x, y)| *x && *y),
+                    sa.iter().zip(sb.iter()).all(|(x, y)| !*x || *y),
+                    sa == sb,
+                )
+            };
             ctx.check("forms-agree", ands.iter().all(|c| *c == ands[0]), ev, "and-forms", || "the four & forms give different cubes".into());
             let c = ands[0];
             let vals = guard(|| asg.iter().map(|m| c.value(*m as usize)).collect::<Vec<bool>>());
@@ -396,6 +443,27 @@ fn main() {
                     };
                     if (a.support() | b.support()).count_ones() > 12 {
                         continue;
+                    }
+                    // dense cubes (up to all 32 variables) and related partners: the same cube, one literal
+                    // flipped / dropped / added, the literals split in two halves, opposite polarity everywhere
+                    let dpos = rng.next_u64() as u32 & if rng.bool() { u32::MAX } else { rng.next_u64() as u32 };
+                    let dneg = rng.next_u64() as u32 & !dpos & if rng.bool() { u32::MAX } else { rng.next_u64() as u32 };
+                    let d = CubeM::new(dpos, dneg);
+                    exec(ctx, &ev_cubes("single", 32, &[d]), &mut rng);
+                    let v = 1u32 << rng.below(32);
+                    let partners = [
+                        d,
+                        CubeM::new(d.pos & !v, d.neg & !v),
+                        CubeM::new(d.pos | (v & !d.neg), d.neg),
+                        CubeM::new((d.pos & !v) | (d.neg & v), (d.neg & !v) | (d.pos & v)),
+                        CubeM::new(d.neg, d.pos),
+                        CubeM::new(d.pos & 0xffff, d.neg & 0xffff),
+                        CubeM::new(d.pos & 0xffff_0000, d.neg & 0xffff_0000),
+                        CubeM::new(d.pos | v, d.neg | v),
+                    ];
+                    for o in partners {
+                        exec(ctx, &ev_cubes("pair", 32, &[d, o]), &mut rng);
+                        exec(ctx, &ev_cubes("pair", 32, &[o, d]), &mut rng);
                     }
                     exec(ctx, &ev_cubes("single", 32, &[a]), &mut rng);
                     exec(ctx, &ev_cubes("pair", 32, &[a, b]), &mut rng);
